@@ -169,6 +169,32 @@ func (p *Program) verifyFunc(t *target) (vc *VC, rep *FuncReport) {
 			bind(n)
 		}
 	}
+	if t.lit != nil {
+		// captured variables of a closure are unconstrained inputs
+		seenCap := map[types.Object]bool{}
+		ast.Inspect(t.lit.Body, func(n ast.Node) bool {
+			id, ok := n.(*ast.Ident)
+			if !ok {
+				return true
+			}
+			v, ok := t.pkg.TypesInfo.Uses[id].(*types.Var)
+			if !ok || v.IsField() || x.isGlobal(v) || seenCap[v] {
+				return true
+			}
+			if v.Pos() >= t.lit.Pos() && v.Pos() <= t.lit.End() {
+				return true
+			}
+			seenCap[v] = true
+			cv := x.havocVal(st, v.Name(), v.Type())
+			x.knownRef(st, cv)
+			if x.boxed[v] {
+				x.setVar(st, v, cv)
+			} else {
+				st.vars[v] = cv
+			}
+			return true
+		})
+	}
 	// result holders
 	if ftype.Results != nil {
 		for _, f := range ftype.Results.List {
@@ -310,6 +336,10 @@ func (p *Program) verifyFunc(t *target) (vc *VC, rep *FuncReport) {
 			}
 		}
 	}
+	// frame: everything outside the modifies clause is unchanged (for objects that existed at entry)
+	if len(x.returns) > 0 {
+		x.frameObligations(final, entrySnap, c)
+	}
 	// vacuity probe: the end of the function must be reachable under the preconditions
 	if len(x.returns) > 0 {
 		o := &Obl{Name: rep.Name + "#vacuity.exit", Class: "vacuity", PC: final.pc, Goal: "false", Func: rep.Name, Vacuity: true, Desc: "some return is reachable under the preconditions and callee contracts"}
@@ -435,4 +465,67 @@ func substSExpr(e *SExpr, sub map[string]*SExpr) *SExpr {
 		n.Args[i] = substSExpr(a, sub)
 	}
 	return &n
+}
+
+// frameObligations: one obligation per heap / ghost / global the function may have touched that
+// its modifies clause does not list: the final value equals the entry value (heaps: on every
+// reference that existed at entry).
+func (x *Exec) frameObligations(final, entry *State, c *Contract) {
+	covered := map[string]bool{}
+	all := false
+	for _, m := range c.Modifies {
+		switch {
+		case m == "*":
+			all = true
+		case strings.HasPrefix(m, "heap(") && strings.HasSuffix(m, ")"):
+			if t := x.prog.resolveType(c.PkgPath, m[5:len(m)-1]); t != nil {
+				covered[heapKey(x.vc.sortOf(t))] = true
+			}
+		default:
+			covered["G:"+m] = true
+			if strings.Contains(m, ".") {
+				k := strings.LastIndex(m, ".")
+				covered["V:"+x.prog.resolveQual(c.PkgPath, m[:k])+"."+m[k+1:]] = true
+			} else {
+				covered["V:"+c.PkgPath+"."+m] = true
+			}
+		}
+	}
+	if all {
+		return
+	}
+	keys := map[string]bool{}
+	for k := range final.heap {
+		keys[k] = true
+	}
+	var ks []string
+	for k := range keys {
+		ks = append(ks, k)
+	}
+	sort.Strings(ks)
+	top0 := x.lookupHeap(entry, "top", "Int")
+	for _, k := range ks {
+		if k == "top" || strings.HasPrefix(k, "#") || k == "G:$now" || covered[k] {
+			continue
+		}
+		fv := final.heap[k]
+		iv, ok := entry.heap[k]
+		if !ok {
+			iv, ok = x.prog.tmpInit[x][k]
+			if !ok {
+				continue
+			}
+		}
+		if fv.T == iv.T {
+			continue // syntactically untouched
+		}
+		var goal string
+		if strings.HasPrefix(k, "H:") {
+			goal = fmt.Sprintf("(forall ((r!f Int)) (=> (and (>= r!f 0) (< r!f %s)) (= (select %s r!f) (select %s r!f))))", top0.T, fv.T, iv.T)
+		} else {
+			goal = eq(fv.T, iv.T)
+		}
+		x.assertNamed(final, "frame."+sanitize(strings.TrimPrefix(strings.TrimPrefix(strings.TrimPrefix(k, "H:"), "G:"), "V:")), "frame", goal,
+			"not listed in modifies, hence unchanged: "+k, token.Position{Filename: c.File, Line: c.Line})
+	}
 }
